@@ -429,6 +429,12 @@ def quirk_pair_case(draw, kind):
     axis, tag = draw(axis_dir(draw(st.sampled_from(("lattice", "lattice", "random")))))
     r = draw(st.integers(2, 40)) / 8.0
     n = draw(st.sampled_from((3, 4, 5, 6, 8, 12)))
+    if draw(st.booleans()):
+        # ... or at one centre with two axes whose Vector hashes collide (not parallel: a or b is non-zero)
+        assume(a or b)
+        c = draw(gen.lattice_point(4))
+        k = draw(st.sampled_from((F(1), F(1), F(2))))
+        return ("PAIR", (kind, c, tuple(k * x for x in q1), r, n, "colliding-axes"), (kind, c, tuple(k * x for x in q2), r, n, "colliding-axes"))
     return ("PAIR", (kind, tuple(q1), axis, r, n, "colliding-centres"), (kind, tuple(q2), axis, r, n, "colliding-centres"))
 
 
@@ -441,7 +447,7 @@ def strata(tier):
     for kind in ("Circle", "Cylinder", "Cone"):
         out.append(Stratum("%s/boundary-radius" % kind, "hyp", boundary_case(kind), 60 if q else 2000))
     for kind in ("Circle", "Cylinder", "Cone"):
-        out.append(Stratum("%s/colliding-centres" % kind, "hyp", quirk_pair_case(kind), 24 if q else 800))
+        out.append(Stratum("%s/colliding-centres" % kind, "hyp", quirk_pair_case(kind), 36 if q else 800))
     out.append(Stratum("Sphere", "hyp", sphere_case(), 48 if q else 1500))
     out.append(Stratum("Parallelogram", "hyp", pgram_case(), 200 if q else 6000))
     out.append(Stratum("Parallelepiped", "hyp", ppd_case(), 150 if q else 5000))
